@@ -267,6 +267,7 @@ class Interp:
                 self.funcs[st.name] = Fn(st)
         self.globals = dict(globals_ or {})
         self.steps = 0
+        self.float_strs = {}   # repr text of an emitted float -> its exact value
         self.trace = []        # (If/IfExp/While node, bool) decisions taken
         self.new_nodes = []    # Call nodes that instantiated module classes
         self.depth = 0
@@ -543,7 +544,11 @@ class Interp:
         if isinstance(x, int):
             return str(x)
         if isinstance(x, Fl):
-            return py_float_str(x.v)
+            t = py_float_str(x.v)
+            # a CPython float survives str() -> parse exactly; remember the exact value behind the text
+            if self.float_strs.setdefault(t, x.v) != x.v:
+                raise Unsupported(node, 'two sample values share one float representation')
+            return t
         if isinstance(x, str):
             return x
         if isinstance(x, Obj):
@@ -701,7 +706,7 @@ class Interp:
         if isinstance(e, ast.Constant):
             v = e.value
             if isinstance(v, float):
-                return Fl(Fraction(v))
+                return Fl(self.float_strs.get(repr(v), Fraction(v)))
             if isinstance(v, (int, str, bool)) or v is None:
                 return v
             raise Unsupported(e, 'constant kind')
@@ -951,7 +956,21 @@ class Interp:
                 names.append(n.attr)
             else:
                 raise Unsupported(handler, 'exception class expression')
-        return any(exc_isa(exc.name, n) for n in names)
+        return any(self.exc_isa(exc.name, n) for n in names)
+
+    def exc_isa(self, name, base):
+        """Subclass test that also knows exception classes defined in the analysed module."""
+        for _ in range(8):
+            c = self.classes.get(name)
+            if c is None:
+                return exc_isa(name, base)
+            if name == base:
+                return True
+            bases = [b.id for b in c.node.bases if isinstance(b, ast.Name)]
+            if not bases:
+                return False
+            name = bases[0]
+        return False
 
     def stmt(self, st, env):
         self.tick(st)
